@@ -95,10 +95,14 @@ Proof. exact (prepared_comes_back_with_live_votes gen_vote_first_wins). Qed.
 Theorem C13_live_invariant :
   LInv co0 [] /\
   (forall now c es s c' w out, LInv c es -> fresh_begin c es s -> step now c s = (c', w, out) -> LInv c' (es ++ w)) /\
-  (forall now es, LInv (fst (recover_entries gen_vote_scan_live gen_vote_first_wins now es)) es).
+  (forall now es, LInv (fst (recover_entries gen_vote_scan_live gen_vote_first_wins now es)) es) /\
+  (* "for every following sequence of recovery calls": recover_from_wal() called again on the live
+     coordinator (its pending table merged with what the log restores) keeps the invariant *)
+  (forall now c es, LInv c es -> LInv (merge_recovered gen_vote_first_wins now es c) es).
 Proof.
-  split; [exact LInv_init|]. split; [exact LInv_step|].
-  exact (fun now es => LInv_restart gen_vote_first_wins now es).
+  split; [exact LInv_init|]. split; [exact LInv_step|]. split.
+  - exact (fun now es => LInv_restart gen_vote_first_wins now es).
+  - exact (fun now c es => LInv_recover_live gen_vote_first_wins now c es).
 Qed.
 
 (* the same statement is FALSE for the recovery rule before the fixes (no live rule, last vote
